@@ -584,6 +584,12 @@ pub fn scenario(sseed: u64, _tier: Tier) -> Report {
     }
     let trace: Vec<String> = obs.iter().map(|o| format!("{}:{:?}->{}{}", o.step, cfg.steps[o.step], st_name(o.st_async), if o.invoked { "+inner" } else { "" })).collect();
     rep.case = json!({"cfg": format!("{:?}", Cfg { steps: vec![], ..cfg.clone() }), "trace": trace});
-    rep.log = if rep.violations.is_empty() { vec![] } else { w.take_log() };
+    let full_log = w.take_log();
+    let sib = full_log.iter().filter(|r| matches!(&r.ev, Ev::InnerEnter { req, .. } if *req >= 1_000_000)).count() as u64;
+    rep.count("sibling_breaker_inner_calls", sib);
+    if sib > 0 {
+        rep.count("scenarios_with_sibling_breaker", 1);
+    }
+    rep.log = if rep.violations.is_empty() { vec![] } else { full_log };
     rep
 }
